@@ -86,7 +86,12 @@ impl Emit<'_> {
 
 /// All cases of one token-level grammar (random CFG, operator table, GLR).
 fn explore_token_grammar(em: &mut Emit, cu: &mut CUnit, rng: &mut Rng, gid: &str, kind: &str, src: &str, json: &str, optable: Option<&OpTable>, budget: usize, nrandom: usize, stats: &mut Stats) -> bool {
-    let lang = match load_lang(cu, json, None, OptLevel::default()) {
+    explore_token_grammar_x(em, cu, rng, gid, kind, src, json, optable, budget, nrandom, stats, None, None)
+}
+
+#[allow(clippy::too_many_arguments)]
+fn explore_token_grammar_x(em: &mut Emit, cu: &mut CUnit, rng: &mut Rng, gid: &str, kind: &str, src: &str, json: &str, optable: Option<&OpTable>, budget: usize, nrandom: usize, stats: &mut Stats, scanner: Option<&str>, samples: Option<&str>) -> bool {
+    let lang = match load_lang(cu, json, scanner, OptLevel::default()) {
         Ok(l) => l,
         Err(e) => {
             stats.rejected_by_generator += 1;
@@ -168,7 +173,7 @@ fn explore_token_grammar(em: &mut Emit, cu: &mut CUnit, rng: &mut Rng, gid: &str
         }
     }
     // random derivations and their mutations
-    let gg = gen::GrammarGen::new(json, None);
+    let gg = gen::GrammarGen::new(json, samples);
     let by_text: HashMap<String, usize> = terms.iter().enumerate().map(|(i, t)| (t.text.clone(), i)).collect();
     let extras: Vec<usize> = terms.iter().enumerate().filter(|(_, t)| t.extra).map(|(i, _)| i).collect();
     for r in 0..nrandom {
@@ -308,6 +313,13 @@ fn grammar_of_src(src: &str) -> (String, String, Option<OpTable>, Option<String>
             let mut rng = Rng::new(seed ^ 0x61A5 ^ (k as u64).wrapping_mul(0x9E37));
             ("glr".into(), serde_json::to_string(&lalr_glr_grammar(&mut rng, &format!("c03lglr{k}"))).unwrap(), None, None)
         }
+        "xop" => {
+            let seed: u64 = f[1].parse().unwrap();
+            let k: usize = f[2].parse().unwrap();
+            let mut rng = Rng::new(seed ^ 0xE87A ^ (k as u64).wrapping_mul(0x9E37));
+            let (g, scanner, _) = wide_op_external_grammar(&mut rng, &format!("c03xop{k}"));
+            ("xop".into(), serde_json::to_string(&g).unwrap(), None, Some(scanner))
+        }
         "json" => ("cfg".into(), String::from_utf8(unhex(f[1])).unwrap(), None, None),
         _ => panic!("bad src {src}"),
     }
@@ -428,6 +440,14 @@ fn main() {
     // zoo grammars without external scanners: grammar-directed documents
     for id in zoo::list() {
         if zoo::zoo_dir(&id).join("scanner.c").exists() {
+            // grammars with an external scanner: the table only (closedness, raw rows vs ts_language_lookup)
+            let d = zoo::zoo_dir(&id);
+            if let (Ok(json), Ok(scanner)) = (std::fs::read_to_string(d.join("grammar.json")), std::fs::read_to_string(d.join("scanner.c"))) {
+                if let Ok(lang) = load_lang(&mut cu, &json, Some(&scanner), OptLevel::default()) {
+                    em.grammar_header(&format!("zoox.{id}"), "zoox", &format!("zoo:{id}"), &lang, None, None, 0);
+                    stats.zoo += 1;
+                }
+            }
             continue;
         }
         explore_zoo(&mut em, &mut cu, &mut rng, &id, zoo_docs, &mut stats);
@@ -450,6 +470,14 @@ fn main() {
         let g = op_grammar(&name, &t);
         let json = serde_json::to_string(&g).unwrap();
         explore_token_grammar(&mut em, &mut cu, &mut rng, &name, "op", &format!("op:{name}:{}", t.encode()), &json, Some(&t), budget.min(15000), nrandom, &mut stats);
+    }
+    // wide operator sets next to external tokens (a reduce shared by ≥ 10 look-aheads incl. externals)
+    for k in 0..(if thorough { 24 } else { 6 }) {
+        let mut grng = Rng::new(seed ^ 0xE87A ^ (k as u64).wrapping_mul(0x9E37));
+        let name = format!("c03xop{k}");
+        let (g, scanner, samples) = wide_op_external_grammar(&mut grng, &name);
+        let json = serde_json::to_string(&g).unwrap();
+        explore_token_grammar_x(&mut em, &mut cu, &mut rng, &name, "xop", &format!("xop:{seed}:{k}"), &json, None, budget.min(15000), nrandom, &mut stats, Some(&scanner), Some(&samples));
     }
     // LR(1)-but-not-LALR(1) splits behind a declared conflict (GLR entry on the path to the split states)
     for k in 0..(if thorough { 40 } else { 8 }) {
